@@ -3,7 +3,7 @@
    _gen_graph / set_value, _CycleCell and _IterativeEvalTracker; tied to the source
    by the differential run of harness/props/c06.py). *)
 From Coq Require Import ZArith QArith Qabs List.
-From PV Require Import Lib.Py Model.Iter Proofs.C06 Proofs.C06Lin.
+From PV Require Import Lib.Py Model.Iter Proofs.C06 Proofs.C06Lin Proofs.C06Struct Proofs.C06Cone Proofs.C06Conv Proofs.C06Ready.
 Import ListNotations.
 
 (* any workbook, cyclic or not, any state: between 1 and [iterations] passes *)
@@ -93,3 +93,156 @@ Theorem C06_acyclic_write : forall w sv sv' t c v st st',
   quiet w sv' t st'.
 Proof. exact set_value_quiet. Qed.
 Print Assumptions C06_acyclic_write.
+
+(* ---- fuel sufficiency and totality (Proofs/C06Struct.v) ---- *)
+
+(* any workbook (cyclic, with ranges), any state whose cell list is not longer
+   than the workbook's, built target: a pass never answers OutOfFuel — every
+   nested computation puts one more cell on the stack (wip), and the model's
+   fuel is #cells + 1 *)
+Theorem C06_pass_total : forall w t st,
+  built (getc st t) = true -> (length (cells st) <= length (w_cells w))%nat ->
+  evaluate_pass w t st <> Raise OutOfFuel.
+Proof. exact pass_total. Qed.
+Print Assumptions C06_pass_total.
+
+(* ... and neither does the whole iterative evaluate *)
+Theorem C06_fuel_sufficient : forall w t it tolv st,
+  built (getc st t) = true -> (length (cells st) <= length (w_cells w))%nat ->
+  evaluate_iterative w t it tolv st <> Raise OutOfFuel.
+Proof. exact iterative_nofuel. Qed.
+Print Assumptions C06_fuel_sufficient.
+
+(* linear cell formulas (cyclic or not), every cell reachable from the target
+   built: the iterative evaluate returns a value (no OutOfFuel, no Unmodelled) *)
+Theorem C06_total : forall w t it tolv st,
+  no_sum w -> cone_built w t st -> (length (cells st) <= length (w_cells w))%nat ->
+  exists v st', evaluate_iterative w t it tolv st = Ok (v, st').
+Proof. exact iterative_ok. Qed.
+Print Assumptions C06_total.
+
+(* ---- the pass over the cone of the target (Proofs/C06Cone.v) ---- *)
+
+(* cone_ready: target built, no cell on the stack, the built constants reachable
+   from the target carry the fixed point's values; cone_within E: the built
+   formula cells reachable from the target are within E (current values only).
+   One pass then computes EXACTLY the reachable formula cells, each once (prev =
+   the value before the pass, value a number), within qE; nothing else changes;
+   the answer is the target's value; and the state is ready again, within qE. *)
+Theorem C06_cone_pass : forall w xs q E,
+  no_sum w -> fixed_point w xs -> row_bound_f w q -> (q <= 1)%Q -> (0 <= E)%Q ->
+  forall t s v s',
+  cone_ready w xs t s -> cone_within w xs t E s ->
+  evaluate_pass w t (inc_iteration s) = Ok (v, s') ->
+  (forall c, In c (computed (tr s')) <-> reach w t c /\ is_formula w c = true) /\
+  (forall c, In c (computed (tr s')) ->
+             built (getc s' c) = true /\ value (getc s' c) <> None /\
+             prev (getc s' c) = value (getc s c) /\
+             (dist xs c (value (getc s' c)) <= q * E)%Q) /\
+  (forall c, ~ In c (computed (tr s')) -> getc s' c = getc s c) /\
+  v = value (getc s' t) /\
+  cone_ready w xs t s' /\ cone_within w xs t (q * E) s'.
+Proof. exact cone_pass. Qed.
+Print Assumptions C06_cone_pass.
+
+(* row_bound_f: the row norm over the VARIABLES only (references to constant cells
+   belong to b of x = Ax + b); weaker than row_bound, which counts them too *)
+Theorem C06_row_bound_f : forall w q, row_bound w q -> row_bound_f w q.
+Proof. exact row_bound_weaken. Qed.
+Print Assumptions C06_row_bound_f.
+
+(* ---- end to end (Proofs/C06Conv.v) ---- *)
+
+(* geometric decay: after n = itn passes every formula cell of the cone is within
+   q^n E0 of the fixed point, E0 bounding the cone's distance at the start *)
+Theorem C06_decay : forall w xs q E0,
+  no_sum w -> fixed_point w xs -> row_bound_f w q -> (0 <= q)%Q -> (q <= 1)%Q -> (0 <= E0)%Q ->
+  forall t it tolv st v st',
+  cone_ready w xs t st -> cone_within w xs t E0 st ->
+  evaluate_iterative w t it tolv st = Ok (v, st') ->
+  (forall c, reach w t c -> is_formula w c = true ->
+             (dist xs c (value (getc st' c)) <= q ^ (itn (tr st')) * E0)%Q) /\
+  v = value (getc st' t) /\
+  cone_ready w xs t st'.
+Proof. exact decay. Qed.
+Print Assumptions C06_decay.
+
+(* all [iterations] passes used *)
+Theorem C06_exhausted : forall w xs q E0,
+  no_sum w -> fixed_point w xs -> row_bound_f w q -> (0 <= q)%Q -> (q <= 1)%Q -> (0 <= E0)%Q ->
+  forall t it tolv st v st',
+  cone_ready w xs t st -> cone_within w xs t E0 st ->
+  evaluate_iterative w t it tolv st = Ok (v, st') ->
+  (1 <= it)%Z -> ~ (itn (tr st') < it)%Z ->
+  (forall c, reach w t c -> is_formula w c = true ->
+             (dist xs c (value (getc st' c)) <= q ^ it * E0)%Q) /\
+  (is_formula w t = true -> (dist xs t v <= q ^ it * E0)%Q).
+Proof. exact exhausted. Qed.
+Print Assumptions C06_exhausted.
+
+(* early stop of a contracting system (||A||inf <= q < 1): every formula cell of
+   the target's cone, and the answer, is within q/(1-q) (1+1e-5) tolerance of the
+   fixed point.  No assumption on how far the state was at the start, on
+   previous-pass values, or on cells outside the cone. *)
+Theorem C06_converged : forall w xs q,
+  no_sum w -> fixed_point w xs -> row_bound_f w q -> (0 <= q)%Q -> (q < 1)%Q ->
+  forall t it tolv st v st',
+  cone_ready w xs t st ->
+  evaluate_iterative w t it tolv st = Ok (v, st') ->
+  (itn (tr st') < it)%Z ->
+  (forall c, reach w t c -> is_formula w c = true ->
+             (dist xs c (value (getc st' c)) <= q / (1 - q) * (rel1 * tolv))%Q) /\
+  (is_formula w t = true -> (dist xs t v <= q / (1 - q) * (rel1 * tolv))%Q) /\
+  cone_ready w xs t st'.
+Proof. exact converged. Qed.
+Print Assumptions C06_converged.
+
+(* C06_acyclic_partial without its condition "the evaluation returns Ok": with
+   the cone built the evaluation does return, the from-scratch value, and the
+   hypotheses hold again afterwards (so also after any history of evaluates and,
+   by C06_acyclic_write, constant writes).  Still excluded (refuted in
+   Refuted/C06_acyclic.v): first use and formulas that read ranges. *)
+Theorem C06_acyclic_total : forall w sv rank,
+  no_sum w -> fixed_point w sv -> acyclic w rank ->
+  forall t it tolv st,
+  quiet w sv t st -> cone_built w t st -> (length (cells st) <= length (w_cells w))%nat ->
+  exists v st', evaluate_iterative w t it tolv st = Ok (v, st') /\
+    (num v == sv t)%Q /\ (is_formula w t = true -> v <> None) /\
+    quiet w sv t st' /\ cone_built w t st' /\ length (cells st') = length (cells st).
+Proof. exact acyclic_total. Qed.
+Print Assumptions C06_acyclic_total.
+
+(* ---- cone_ready is what histories produce (Proofs/C06Ready.v) ---- *)
+
+(* calm: no cell on the stack; consts_ok w xs: every constant cell carries xs — a
+   built one by its value, an unbuilt one by what the file stored.  They hold in
+   the initial state, are kept by EVERY returning evaluate (any workbook: cyclic,
+   with ranges; built target or first use, graph construction included) and by
+   writes to constants (for the valuation with the new constant); together with
+   a built target they are cone_ready.  So C06_decay / C06_exhausted /
+   C06_converged apply to every evaluate of an already built target in every
+   history of evaluates and constant writes from the initial state. *)
+Theorem C06_ready_init : forall w xs,
+  (forall c, is_formula w c = false -> (num (stored (spec w c)) == xs c)%Q) ->
+  calm (init_state w) /\ consts_ok w xs (init_state w).
+Proof. exact ready_init. Qed.
+Print Assumptions C06_ready_init.
+
+Theorem C06_ready_evaluate : forall w xs t it tolv st v st',
+  calm st -> consts_ok w xs st -> evaluate_iterative w t it tolv st = Ok (v, st') ->
+  calm st' /\ consts_ok w xs st' /\ built (getc st' t) = true.
+Proof. exact ready_evaluate. Qed.
+Print Assumptions C06_ready_evaluate.
+
+Theorem C06_ready_write : forall w xs xs' c v st st',
+  calm st -> consts_ok w xs st -> is_formula w c = false -> set_value c v st = Ok st' ->
+  (xs' c == num v)%Q ->
+  (forall c', c' <> c -> is_formula w c' = false -> (xs' c' == xs c')%Q) ->
+  calm st' /\ consts_ok w xs' st'.
+Proof. exact ready_write. Qed.
+Print Assumptions C06_ready_write.
+
+Theorem C06_ready_cone : forall w xs t st,
+  calm st -> consts_ok w xs st -> built (getc st t) = true -> cone_ready w xs t st.
+Proof. exact ready_cone. Qed.
+Print Assumptions C06_ready_cone.
